@@ -114,11 +114,13 @@ CHECKS = {
          "TLA+ model checking of the service/lazy-table model + trace validation of recorded multi-process/thread runs"),
  "C19": ("model_checking", "4.C19",
          "Cli.tla enumerates all option subsets x input modes x fault sets (TLC), checks the machine against the "
-         "reference outcome functions and termination; every scenario is replayed against the real binary and the "
-         "trace specification evaluates CliOK / BuildOK with the library's own conversion as reference.",
+         "reference outcome functions and termination; CliBuild.tla models the batch mode (directory listed in any "
+         "order, entries skipped / converted / failing) with one-document-per-file, no-collision and exit-iff-success "
+         "invariants; every scenario of both machines is replayed against the real binary and the trace specification "
+         "evaluates CliOK / BuildOK with the library's own conversion as reference.",
          "TLA+ model checking of the CLI protocol machine + TLC scenario replay against the binary + trace validation"),
  "C20": ("model_checking", "4.C20",
-         "Server.tla (clients x request classes, all interleavings) is model-checked by TLC; one real server process "
+         "Server.tla (connection stages as separate actions, clients x request classes, all interleavings, liveness) is model-checked by TLC; one real server process "
          "is driven by a sequential and 16 concurrent clients with seeded request sequences and the trace "
          "specification evaluates ExchangeOK on every exchange, final probes and process liveness.",
          "TLA+ model checking of the server protocol machine + trace validation of recorded HTTP exchanges"),
